@@ -75,6 +75,9 @@ pub struct Case {
     /// (configuration file, auth secret file, environment) instead of an in-process passage::start
     #[serde(default)]
     pub layers: Option<crate::layers::LayerPlan>,
+    /// the operator configured no secret at all: no authentication cookie is requested, issued or accepted
+    #[serde(default)]
+    pub no_secret: bool,
 }
 
 pub struct C14;
@@ -110,6 +113,9 @@ fn start_passage_with(case: &Case, favicon: Option<String>) -> Result<Instance, 
     });
     if let Some(f) = favicon {
         cfg["adapters"]["status"] = json!({"fixed": {"name": "big", "favicon": f}});
+    }
+    if case.no_secret {
+        cfg.as_object_mut().unwrap().remove("auth_secret");
     }
     if let Some(plan) = &case.layers {
         let l = crate::layers::start(&cfg, plan)?;
@@ -208,7 +214,7 @@ fn run_scenario(case: &Case, port: u16, scn: &Scn) -> Result<(), (String, String
             }
         }
         Scn::StallThenCookie => {
-            if m < 600 || case.timeout_s < 3 || case.expiry < 30 {
+            if m < 600 || case.timeout_s < 3 || case.expiry < 30 || case.no_secret {
                 return Ok(());
             }
             let mut c = NetClient::connect(port).map_err(|e| ("inconclusive".to_string(), e.to_string()))?;
@@ -268,6 +274,12 @@ fn run_scenario(case: &Case, port: u16, scn: &Scn) -> Result<(), (String, String
                     Ok(Pkt::CfgTransfer { .. }) => break,
                     other => return Err(inc(format!("first login did not reach the Transfer: {other:?}"))),
                 }
+            }
+            if case.no_secret {
+                return match issued {
+                    Some(_) => Err(("auth-cookie-issued-although-no-secret-is-configured".into(), "a routed player was given an authentication cookie although no secret is configured".into())),
+                    None => Ok(()),
+                };
             }
             let Some(issued) = issued else { return Err(("no-auth-cookie-issued-although-secret-configured".into(), "a routed player was not given an authentication cookie although a secret is configured".into())) };
             drop(c);
@@ -333,15 +345,17 @@ fn run_scenario(case: &Case, port: u16, scn: &Scn) -> Result<(), (String, String
                 other_secret: other_secret.then(|| b"another secret".to_vec()),
                 mutation: Mutation::None,
             };
+            // without a configured secret the cookie is tagged under the empty key (or under some other key)
+            let spec = if case.no_secret && !*other_secret { CookieSpec { other_secret: Some(Vec::new()), ..spec } } else { spec };
             let presented = cookie::build(&spec, Some(case.secret.as_bytes()), cookie::now_secs());
-            let expect_accept = *inside && !*other_secret && case.expiry >= margin;
+            let expect_accept = *inside && !*other_secret && case.expiry >= margin && !case.no_secret;
             match c.login_until_success(3, "Claimed", Some(presented), timeout + SLACK) {
                 Ok((should_auth, name)) => {
                     if expect_accept && should_auth {
                         return Err(("cookie-within-configured-expiry-refused".into(), format!("configured expiry {} s, secret configured: a correctly signed cookie of age {age} s was not accepted (should_authenticate = true)", case.expiry)));
                     }
                     if !expect_accept && !should_auth {
-                        let sig = if *other_secret { "cookie-under-other-secret-accepted" } else { "cookie-older-than-configured-expiry-accepted" };
+                        let sig = if case.no_secret { "cookie-accepted-although-no-secret-is-configured" } else if *other_secret { "cookie-under-other-secret-accepted" } else { "cookie-older-than-configured-expiry-accepted" };
                         return Err((sig.into(), format!("configured expiry {} s: cookie of age {age} s (other secret: {other_secret}) was accepted; logged in as {name}", case.expiry)));
                     }
                     Ok(())
@@ -549,6 +563,12 @@ fn decide(case: &Case, info: &mut CaseInfo) -> Verdict {
         }
     }
     info.class(format!("max_len:{}", case.max_len));
+    if case.no_secret {
+        info.class("no_secret_configured");
+    }
+    if case.secret.trim() != case.secret {
+        info.class("secret_with_surrounding_whitespace");
+    }
     let mut inconclusive = None;
     for (i, r) in results {
         if let Err((sig, msg)) = r {
@@ -627,13 +647,23 @@ impl Check for C14 {
             prop_oneof![3 => proptest::sample::select(vec![64u32, 100, 1000, 9_999, 10_001, 65_536, (1 << 21) - 1]), 1 => Just(10_000u32), 2 => 64u32..200_000],
             proptest::sample::select(vec![1u64, 2, 3, 30, 60, 600, 21_600, 100_000, 1_000_000]),
             1u8..=3,
-            "[a-zA-Z0-9]{4,24}",
+            // mostly plain; sometimes with blanks or line breaks around it (they are part of the secret)
+            prop_oneof![5 => "[a-zA-Z0-9]{4,24}".boxed(), 2 => ("[a-zA-Z0-9]{4,16}", proptest::sample::select(vec![(" ", ""), ("", " "), ("", "\n"), ("\t", "\t"), (" ", "\r\n")])).prop_map(|(s, (a, b))| format!("{a}{s}{b}")).boxed()],
             proptest::collection::vec(scn, 6..20),
             300u16..900,
             prop::bool::weighted(0.3),
             proptest::option::weighted(0.5, crate::layers::plan_strategy()),
+            prop::bool::weighted(0.15),
         )
-            .prop_map(|(mut max_len, mut expiry, timeout_s, secret, mut scenarios, listener_timeout_ms, unread_response, layers)| {
+            .prop_map(|(mut max_len, mut expiry, timeout_s, secret, mut scenarios, listener_timeout_ms, unread_response, layers, no_secret)| {
+                if no_secret {
+                    // every such instance is asked to accept cookies under the empty key and under another key
+                    max_len = max_len.max(700);
+                    expiry = expiry.max(30);
+                    scenarios.push(Scn::Cookie { inside: true, other_secret: false });
+                    scenarios.push(Scn::Cookie { inside: true, other_secret: true });
+                    scenarios.push(Scn::IssuedCookie { wait_out: false });
+                }
                 // an instance whose secret travels through the layers is always asked to validate a cookie with it
                 // (a login needs frames of up to 261 bytes, crafted ages need an expiry with a margin)
                 if layers.is_some() {
@@ -642,7 +672,7 @@ impl Check for C14 {
                     scenarios.push(Scn::Cookie { inside: true, other_secret: false });
                     scenarios.push(Scn::Cookie { inside: true, other_secret: true });
                 }
-                Case { max_len, expiry, timeout_s, secret, scenarios, listener_timeout_ms, unread_response, layers }
+                Case { max_len, expiry, timeout_s, secret, scenarios, listener_timeout_ms, unread_response, layers, no_secret }
             })
             .boxed()
     }
